@@ -35,6 +35,16 @@ func shortTypeString(t types.Type) string {
 
 var sumResult = hasProv("call:hash.Hash.Sum")
 
+// keyObject: the operand is a key object (pointer or interface), not a number
+// derived from one.
+func keyObject(m *Matcher, v ssa.Value) bool {
+	switch types.Unalias(v.Type()).Underlying().(type) {
+	case *types.Pointer, *types.Interface:
+		return true
+	}
+	return false
+}
+
 func voucherAtoms() ([]AtomDef, []Derivation) {
 	entryVerifyArgs := func(m *Matcher, _ ssa.CallInstruction, args []ssa.Value) bool {
 		// receiver: an entry of the entries parameter; key: the previous-owner key parameter
@@ -88,8 +98,8 @@ func voucherAtoms() ([]AtomDef, []Derivation) {
 		// --- x509 ---
 		errNil("x509-verify-ok", "(*x509.Certificate).Verify returned nil", named("crypto/x509.Certificate.Verify"), nil),
 		// --- extension ---
-		equal("ext-owner-key-eq", "the signer's public key equals the voucher's current owner key",
-			hasProvX("call:crypto.Signer.Public"), hasProvX("call:fdo.Voucher.OwnerPublicKey")),
+		equal("ext-owner-key-eq", "the signer's public key equals the voucher's current owner key (a comparison of key objects, not of their sizes or curves)",
+			provAnd(hasProvX("call:crypto.Signer.Public"), keyObject), provAnd(hasProvX("call:fdo.Voucher.OwnerPublicKey"), keyObject, lacksProv("call:crypto.Signer.Public"))),
 		AtomDef{Name: "ext-mfg-type-ok", Doc: "the manufacturer key has the signer's key type", Edge: func(m *Matcher, p Pred, holds bool) bool {
 			if p.Kind != "bool" || !holds {
 				return false
